@@ -268,6 +268,10 @@ def run(chk, prog, tier):
   # sibling: the z-sharded path of the fast implementation pads and crops the level axis around its transforms; pad and crop must act on the
   # same end (decided under C07.3) or every Grid method returns level-shifted fields that the reference implementation does not
   c07.rule_vertical_padding(chk, prog, rule='C09.5-level-padding-transparent')
+  # sibling: the shape-padding multiple must not change resolved values — no computation outside the transforms may read the padded extent or
+  # the end of a tail-padded spectral axis (the package-wide scan of C07.1, re-filed)
+  n_sc, _bad = c07.padded_scan(prog, chk, 'C09.6-padding-multiple-is-invisible')
+  chk.at_least('C09.6-padding-multiple-is-invisible', 2)
   try:
     rule_layout_siblings(chk, prog)
   except AnalysisError as e:
